@@ -51,7 +51,7 @@ static const int fillers[NFILL] = { 0, 5, 13 };
 static int nnf(int tier)  { return tier ? 3 : 2; }
 static int nnet(int tier) { return tier ? 3 : 1; }
 
-static long count(int tier)
+static long count_main(int tier)
 {
     long n = 0;
     for (int t = 0; t < 8; ++t)
@@ -60,9 +60,135 @@ static long count(int tier)
 	* NFILL;
 }
 
+/*
+ * Part L: a leakage path that is not there and is not looked at.  A 2x2
+ * instrument of a leakage type leaks from port 2 into detector 1 but not
+ * from port 1 into detector 2.  The reflects of port 2 are given as rows x 1
+ * matrices (they see the first leakage), those of port 1 as 1x1, the
+ * through in full: no measurement isolates the second leakage cell, the
+ * library takes such a term as zero, and zero it is.  The device must be
+ * recovered; the term of the unobserved cell must not pick up anything
+ * from another cell.
+ */
+static const vnacal_type_t ltypes[4] = { VNACAL_TE10, VNACAL_UE10,
+    VNACAL_UE14, VNACAL_E12 };
+#define NPARTL (4 * 2 * 2)	/* type x which cell is silent x m / a,b */
+
+static void l_add(cs_scenario *sc, int entry, int np, int p1, int p2,
+	const int *sp, const cs_c *sv, bool ar, bool ac)
+{
+    cs_std *st = &sc->std[sc->nstd++];
+    memset(st, 0, sizeof(*st));
+    st->entry = entry;
+    st->np = np;
+    st->port[0] = p1;
+    st->port[1] = p2;
+    for (int i = 0; i < np * np; ++i) {
+	st->sp[i] = sp ? sp[i] : -1;
+	st->sv[i] = sv ? sv[i] : 0.0;
+    }
+    st->abbrev_rows = ar;
+    st->abbrev_cols = ac;
+    st->id = sc->nstd;
+}
+
+static void run_l(long idx, vf_result *r)
+{
+    static cs_scenario sc;
+    static const cs_c through_v[4] = { 0, 1, 1, 0 };
+    vf_errlog elog;
+    int ab = (int)(idx % 2); idx /= 2;
+    int silent = (int)(idx % 2); idx /= 2;	/* 0: cell (2,1), 1: (1,2) */
+    vnacal_type_t type = ltypes[idx];
+    vnacal_t *vcp = NULL;
+    vnacal_new_t *vnp = NULL;
+    /* the port whose reflects are given as 1x1 drives the silent cell */
+    int narrow = silent ? 2 : 1, wide = 3 - narrow;
+    cs_param p;
+
+    memset(&sc, 0, sizeof(sc));
+    cs_make_vna(&sc.vna, type, 2, 2, 2, 2);
+    sc.ab = ab;
+    for (int f = 0; f < sc.vna.nf; ++f)
+	for (int sys = 0; sys < sc.vna.nsys; ++sys)
+	    sc.vna.net[f][sys].El[(wide - 1) * 2 + (narrow - 1)] = 0.0;
+    memset(&p, 0, sizeof(p));
+    p.kind = CSP_PREDEF; p.handle = -1;
+    p.predef = VNACAL_MATCH; sc.param[0] = p;
+    p.predef = VNACAL_OPEN;  sc.param[1] = p;
+    p.predef = VNACAL_SHORT; sc.param[2] = p;
+    sc.nparam = 3;
+    l_add(&sc, CSE_THROUGH, 2, 1, 2, NULL, through_v, false, false);
+    for (int k = 0; k < 3; ++k) {
+	int h = k;
+	/* U types drive by column: the wide matrix keeps every row of the
+	   driven column; for T types it is the same cells */
+	l_add(&sc, CSE_SINGLE, 1, wide, 0, &h, NULL, false, true);
+	l_add(&sc, CSE_SINGLE, 1, narrow, 0, &h, NULL, true, true);
+    }
+    vf_desc(r, "part L: %s 2x2 %s, no leakage from port %d into detector "
+	    "%d and no measurement of that cell (reflects of port %d as 1x1, "
+	    "of port %d as 2x1, through in full)",
+	    vnacal_type_to_name(type), ab ? "a/b" : "m", narrow, wide,
+	    narrow, wide);
+    vf_errlog_reset(&elog);
+    vcp = vnacal_create((vnaerr_error_fn_t *)vf_errfn, &elog);
+    if (vcp == NULL || cs_make_params(vcp, &sc) != 0 ||
+	    (vnp = cs_build(vcp, &sc)) == NULL) {
+	vf_fail(r, "l:setup", "set-up failed: %s",
+		elog.count ? elog.msg[0] : "?");
+	goto out;
+    }
+    r->transitions += sc.nstd + 1;
+    if (vnacal_new_solve(vnp) != 0 ||
+	    vnacal_add_calibration(vcp, "c01", vnp) < 0) {
+	char sig[100];
+	snprintf(sig, sizeof(sig), "l:solve-failed:%s",
+		vnacal_type_to_name(type));
+	vf_fail(r, sig, "solve failed: %s", elog.count ? elog.msg[0] : "");
+	goto out;
+    }
+    for (int k = 0; k < 3; ++k) {
+	cs_c Sd[CS_MAXF][CS_MAXP * CS_MAXP];
+	int arc;
+	for (int f = 0; f < sc.vna.nf; ++f)
+	    cs_dut(&sc.vna, k, f, Sd[f]);
+	double e = cs_apply_error(vcp, vnacal_find_calibration(vcp, "c01"),
+		&sc, Sd, &arc);
+	++r->transitions;
+	if (arc != 0 || !(e <= 1e-8)) {
+	    char sig[100];
+	    snprintf(sig, sizeof(sig), "l:apply-wrong:%s",
+		    vnacal_type_to_name(type));
+	    vf_fail(r, sig, "apply returned %d; corrected S-parameters of "
+		    "DUT #%d differ from the truth by %.3e: the leakage term "
+		    "of the cell nobody measured is not zero?", arc, k, e);
+	    goto out;
+	}
+    }
+    r->nontrivial = 1;
+    vf_outcome(r, "part L recovered");
+out:
+    if (vnp != NULL)
+	vnacal_new_free(vnp);
+    if (vcp != NULL)
+	vnacal_free(vcp);
+}
+
+static long count(int tier)
+{
+    return count_main(tier) + NPARTL;
+}
+
 static void run(int tier, long idx, vf_result *r)
 {
     static cs_scenario sc;
+    if (idx >= count_main(tier)) {
+	unsigned long mk = vf_exec_begin();
+	run_l(idx - count_main(tier), r);
+	vf_exec_end(r, mk);
+	return;
+    }
     const long idx_for_file = idx;
     int fill = fillers[vf_digit(&idx, NFILL)];
     int net = vf_digit(&idx, nnet(tier));
